@@ -1,0 +1,14 @@
+//go:build verif
+
+// Contracts for the verification machinery in /verif (comment-only; compiled only with -tags verif).
+package v3
+
+//@ kvstore ent_store ent_key
+
+// The parameter migration writes the module's parameter key and nothing else, and only a parameter set that passed
+// Validate - so the stored parameters satisfy the validity rules after the upgrade as well (C16).
+//@ func Migrate(ctx, store, legacySubspace, cdc) (err)
+//@   props C16
+//@   modifies ent_store
+//@   ensures @writes_only_valid_params err == nil ==> ent_store == entParamsPut(old(ent_store), entParams(ent_store)) && validDenom(entParams(ent_store).Denom) && entParams(ent_store).MinAccepts >= 1 && entParams(ent_store).DecisionTimeLimit >= 1 && len(splitOn(entParams(ent_store).EntSigners, ",")) >= entParams(ent_store).MinAccepts
+//@   ensures @rejected_changes_nothing err != nil ==> ent_store == old(ent_store)
